@@ -618,9 +618,21 @@ def build(control_events=False):
               "n_hook('mode_stop') == 1 and all_event_handlers_removed() and len(self.event_handlers) == 0 and "
               "all_devices_removed() and len(self.mode_devices) == 0 and stop_callbacks_ran() and "
               "len(self.stop_callbacks) == 0 and not self.cleanup"),
+             ("M12: ... and no delay of the mode is left pending: stop() clears them when the stop begins, but the mode's "
+              "handlers and control events stay registered until this clean-up - whatever they added in between (e.g. a "
+              "delayed control event on the very event that stops the mode) is cleared here, so nothing fires on the "
+              "stopped mode or in its next run", "mode_delays_cleared()"),
          ],
          modifies=["self.mode_stop_kwargs", "self.event_handlers", "self.mode_devices", "self.stop_callbacks",
-                   "self.cleanup"], raises={}, bounded=B2)
+                   "self.cleanup", "self.delay.pending.**"], raises={}, bounded=B2)
+
+    def mode_delays_cleared(I):
+        this = I.frames[0].env["self"].ref
+        dm = I.force(I.read_field(this, "delay")).ref
+        evs = [e for e in I.cur_trace() if e.name.startswith("delay.") and e.args.get("dm") is dm]
+        return VBool(bool(evs) and evs[-1].name == "delay.clear")
+    C.helpers["mode_delays_cleared"] = mode_delays_cleared
+    C.trace_helpers |= {"mode_delays_cleared"}
 
     # ------------------------------------------------------------------ ModeController.set_mode_state
     def modes_list(I, name):
